@@ -53,5 +53,16 @@ ev = {
  "wall_s": round(wall, 2),
  "violations": tot("violations"),
 }
+import glob, os, re
+miri = []
+for f in sorted(glob.glob(os.path.join(os.path.dirname(sys.argv[5]), "C15-miri-*.log"))):
+    txt = open(f, errors="replace").read()
+    done = re.findall(r"^FREE runs=(\d+) ops=(\d+) violations=(\d+)", txt, re.M)
+    miri.append({"backend": re.search(r"miri-(\w+)\.log", f).group(1), "interpreter_seeds_completed": len(done),
+                 "runs": sum(int(d[0]) for d in done), "display_operations": sum(int(d[1]) for d in done),
+                 "violations": sum(int(d[2]) for d in done)})
+if tier == "thorough" and miri:
+    ev["coverage"]["miri_free_running_preemptive"] = miri
+    ev["violations"] += sum(m["violations"] for m in miri)
 json.dump(ev, sys.stdout, indent=1, ensure_ascii=False)
 print()
